@@ -76,9 +76,10 @@ def _run(ctx, ncases, nsteps):
     ref2 = run("id")
     acc.evals += 2
     if not all(np.array_equal(a[0], b[0], equal_nan=True) for a, b in zip(ref, ref2)):
-      # not an ordering effect: the same order twice already differs (uninitialised scratch; see C38's finding)
-      acc.find("step() is not deterministic under the IDENTITY order (sleep-enabled solve with a sparse Jacobian reads uninitialised scratch)", "solver (compact, sparse)",
-               "sparse-sleep-nondeterminism", xml=xml, sleep=sleep)
+      # not an ordering effect: the same order twice already differs (this was the repaired defect c4777c0: uninitialised
+      # compacted qfrc_constraint with sleeping enabled and a sparse Jacobian; kept as a regression check)
+      acc.find("step() is not deterministic under the IDENTITY order (two runs on identical inputs differ)", "forward.step",
+               "nondeterministic-baseline", xml=xml, sleep=sleep)
       acc.hit("nondeterministic-baseline")
       continue
     if any((t[5] != 0).any() for t in ref):
